@@ -148,15 +148,35 @@ def abort_at_call(P, fn, n, exc_cls=None):
         sys.unraisablehook = oldhook
 
 
+def starved_of_stack(fn, headroom):
+    """runs fn() with the interpreter's recursion limit lowered to `headroom` frames above the current depth (restored
+    afterwards): a request that needs more stack ends in a genuine RecursionError half-way"""
+    import sys
+    depth = 0
+    f = sys._getframe()
+    while f is not None:
+        depth += 1
+        f = f.f_back
+    old = sys.getrecursionlimit()
+    try:
+        sys.setrecursionlimit(depth + max(8, headroom))
+        return fn()
+    except RecursionError:
+        return None
+    finally:
+        sys.setrecursionlimit(old)
+
+
 def disturb_kind(s, i):
     """What happens to the rule object right BEFORE the measured request (a pure function of the case, so that a replay does
     the same): nothing (60%), a listing of the same request abandoned after its first match, the same kept SUSPENDED while
-    the measured request runs, or an attempt of the same request cut short at the n-th library call by a BaseException / by
-    an Exception.  None of this may alter the measured request (C08: independent of earlier requests; C17: an abandoned
+    the measured request runs, an attempt of the same request cut short at the n-th library call by a BaseException / by
+    an Exception, or an attempt that runs out of interpreter stack (a genuine RecursionError: the recursion limit is lowered to
+    a few dozen frames above the caller for that attempt and restored afterwards).  None of this may alter the measured request (C08: independent of earlier requests; C17: an abandoned
     request leaves nothing behind) - state left in rule objects by a fault or a dropped generator shows up as a wrong answer."""
     import zlib
     d = zlib.crc32(repr((s, i)).encode())
-    kind = {0: "abandon", 1: "suspend", 2: "abort-base", 3: "abort-exc"}.get(d % 10, "none")
+    kind = {0: "abandon", 1: "suspend", 2: "abort-base", 3: "abort-exc", 4: "recursion"}.get(d % 10, "none")
     return [kind, [2, 3, 5, 8, 13, 21, 34, 55][(d // 10) % 8]]
 
 
@@ -180,6 +200,8 @@ def disturb(P, mode, rule, s, i, kind):
     elif k in ("abort-base", "abort-exc"):
         with_budget(1.0, lambda: abort_at_call(P, lambda: py_outcomes(P, mode, rule, s, i), n,
                                                ForeignAbort if k == "abort-base" else ForeignError), None)
+    elif k == "recursion":
+        with_budget(1.0, lambda: starved_of_stack(lambda: py_outcomes(P, mode, rule, s, i), 12 + 3 * n), None)
     return held
 
 
